@@ -1,6 +1,9 @@
 package roundrobin
 
-import "sort"
+import (
+	"reflect"
+	"sort"
+)
 
 // VerifHosts returns the hosts the selector routes over (trusted harness code added by the build overlay).
 func (r *RoundRobin) VerifHosts() []string {
@@ -13,4 +16,20 @@ func (r *RoundRobin) VerifHosts() []string {
 	}
 	sort.Strings(out)
 	return out
+}
+
+// VerifSetCursor moves both rotation cursors to v (as if that many selections had been made).
+// Through reflection, so that it builds whatever integer type the cursors have.
+func (r *RoundRobin) VerifSetCursor(v uint64) {
+	r.Lock()
+	defer r.Unlock()
+	for _, f := range []interface{}{&r.lastPosition, &r.lastStaticWeightPosition} {
+		e := reflect.ValueOf(f).Elem()
+		switch e.Kind() {
+		case reflect.Uint, reflect.Uint32, reflect.Uint64, reflect.Uintptr:
+			e.SetUint(v)
+		case reflect.Int, reflect.Int32, reflect.Int64:
+			e.SetInt(int64(v))
+		}
+	}
 }
